@@ -45,7 +45,7 @@ def vtable_oracle(c, out):
     except Exception as e:
         return "decode failed: %r" % e
     # group the vtables found by the decoder per buffer (innermost nested range containing them)
-    ranges = sorted([(a, a + n) for (a, n, sd, root) in d.nested], key=lambda x: x[1] - x[0])
+    ranges = sorted([(a, a + n) for (a, n, sd, root, ws) in d.nested], key=lambda x: x[1] - x[0])
     def owner(p):
         for (a, b) in ranges:
             if a <= p < b: return (a, b)
@@ -53,7 +53,7 @@ def vtable_oracle(c, out):
     found = {}
     for (a, b, what) in d.spans:
         if what == "vt": found.setdefault(owner(a), set()).add((a, bytes(buf[a:b])))
-    for (a, n, sd, root) in d.nested:
+    for (a, n, sd, root, ws) in d.nested:
         for (x, y, what) in sd.spans:
             if what == "vt": found.setdefault(owner(a + x), set()).add((a + x, bytes(buf[a + x:a + y])))
     # expected keys per buffer from the tree
